@@ -20,6 +20,30 @@ def F(x):
     return str(Fraction(x))
 
 
+# Terminal symbols need not be strings: byte-level grammars use ints 0..255 (0 = NUL is falsy), the
+# suite's renumber test uses int terminals, and any hashable works.  A case may therefore replace
+# the canonical terminals a, b, c, d by one of these alphabets (JSON lists become tuples).
+SYMBOLS = {
+    "int0": [0, 1, 2, 3],
+    "intsparse": [5, 7, 11, 200],
+    "mixed": [0, [], "c", ["t", 1]],
+    "nul": ["\x00", "b", "\u00e9", "d"],
+}
+ALPHABETS = [["a", "b"]] * 6 + [[0, 1], [5, 7], [0, []], ["a", ["t", 1]]]
+
+
+def resymbol(g, mode):
+    "replace the terminals of a grammar case (V and rule bodies) by the alphabet `mode`"
+    if not mode or mode == "str":
+        return g
+    ren = {t: s for t, s in zip(TERMS, SYMBOLS[mode])}
+    out = dict(g)
+    out["V"] = [ren[v] for v in g["V"]]
+    out["rules"] = [r[:-1] + [[ren.get(y, y) if isinstance(y, str) else y for y in r[-1]]] for r in g["rules"]]
+    out["symbols"] = mode
+    return out
+
+
 def size(tier):
     "grammar size bounds per tier: the thorough tier also explores 5 nonterminals / 10 rules"
     return {"max_nt": 5, "max_rules": 10} if tier == "thorough" else {}
@@ -179,7 +203,7 @@ SHAPE = {
 
 
 @st.composite
-def grammar(draw, regimes=("BOOL", "MT", "FREE", "QQ", "FLOAT"), shape=None, **kw):
+def grammar(draw, regimes=("BOOL", "MT", "FREE", "QQ", "FLOAT"), shape=None, symbols=False, **kw):
     regime = draw(st.sampled_from(list(regimes)))
     g = draw(raw_grammar(**kw))
     mode = shape or SHAPE.get(regime)
@@ -187,15 +211,19 @@ def grammar(draw, regimes=("BOOL", "MT", "FREE", "QQ", "FLOAT"), shape=None, **k
         g = repair(g, mode)
     g["rules"] = draw(weights(g, regime))
     g["regime"] = regime
+    if symbols:
+        g = resymbol(g, draw(st.sampled_from(["str"] * 7 + ["int0", "intsparse", "mixed"])))
     return g
 
 
 def classify(g):
     "structural class labels of a grammar case (rules = [w, head, body])"
-    rules = [(w, h, tuple(b)) for w, h, b in g["rules"]]
-    V = set(g["V"])
+    rules = [(w, h, tuple(cfgref.sym(y) for y in b)) for w, h, b in g["rules"]]
+    V = {cfgref.sym(v) for v in g["V"]}
     S = g["S"]
     out = set()
+    if g.get("symbols"):
+        out.add("terminals:" + g["symbols"])
     N0 = cfgref.nullable_set(rules, V)
     if S in N0:
         out.add("nullable_start")
@@ -246,6 +274,7 @@ def classify(g):
 
 
 def all_strings(V, n):
+    V = [cfgref.sym(v) for v in V]
     out = [()]
     frontier = [()]
     for _ in range(n):
@@ -323,7 +352,7 @@ def automaton(draw, regime="QQ", max_states=4, max_arcs=8, alphabet=("a", "b"), 
         start = [[names[0], _end_weight(draw, regime)]]
     if boost and not stop:
         stop = [[names[n - 1], _end_weight(draw, regime)]]
-    return {"states": names, "start": start, "stop": stop, "arcs": arcs, "regime": regime, "acyclic": bool(acyclic)}
+    return {"states": names, "start": start, "stop": stop, "arcs": arcs, "regime": regime, "acyclic": bool(acyclic), "alphabet": list(alphabet)}
 
 
 @st.composite
